@@ -189,7 +189,7 @@ theorem budStatB_sound {ob : Option Limits} {b : Option Enf} (h : budStatB ob b 
 
 def trailOkB : Option Enf → Bool
   | none => true
-  | some E => decide (E.report.events + 1 ≤ E.lim.maxEvents) && E.finalize.2.isNone
+  | some E => decide (E.report.events + 1 ≤ E.lim.maxEvents) && E.ratioBreach.isNone
 
 theorem trailOkB_sound {b : Option Enf} (h : trailOkB b = true) : TrailOk b := by
   intro E hE
